@@ -684,9 +684,22 @@ def rule_R7(res, prog):
                 prims[fn.name] = (j, j + 1)
                 break
     n = 0
-    for fn in sorted(prog.functions.values(), key=lambda f: f.qname):
-        if not fn.blocks or not fn.relfile.startswith("crypto/") or not re.search(r"erify|DecryptSignedElement|EccDsa", fn.name):
-            continue
+    # the verification functions and the helpers of their own file they call (a parser extracted from a verifier stays in scope)
+    scope = {}
+    for fn in prog.functions.values():
+        if fn.blocks and fn.relfile.startswith("crypto/") and re.search(r"erify|DecryptSignedElement|EccDsa", fn.name):
+            scope[fn.qname] = fn
+    work = list(scope.values())
+    while work:
+        fn = work.pop()
+        for b, ln, c in fn.calls():
+            if not c.get("fn"):
+                continue
+            tq = prog.resolve_call(fn, c["fn"])
+            if tq is not None and tq.blocks and tq.relfile == fn.relfile and tq.qname not in scope and tq.name not in prims:
+                scope[tq.qname] = tq
+                work.append(tq)
+    for fn in sorted(scope.values(), key=lambda f: f.qname):
         for b, ln, c in fn.calls():
             if c.get("fn") not in prims:
                 continue
@@ -952,14 +965,84 @@ def rule_R12(res, prog):
     # (a)
     fn = fn_of("psEccDsaVerify")
     if fn is not None:
+        import re as _re
+
+        def end_vars(g):
+            """locals of g assigned `<pointer> + <length parameter>` (the end of the input)"""
+            lens = set(p_.get("n") for p_ in g.params if p_.get("n") and _re.search(r"(?i)len$|length$", p_["n"]))
+            out = set()
+            for b in g.blocks:
+                for i, ln, x in cu.block_exprs(b):
+                    for m in walk(x):
+                        if m.get("k") == "bin" and m["op"] == "=" and (strip(m["l"]) or {}).get("k") == "var":
+                            rt = cu.ftext(strip(m["r"]) or {})
+                            mm = _re.fullmatch(r"\(?(\w+) \+ (\w+)\)?", rt)
+                            if mm and mm.group(2) in lens:
+                                out.add(strip(m["l"])["n"])
+                        elif m.get("k") == "decl" and "init" in m and (m.get("var") or {}).get("n"):
+                            rt = cu.ftext(strip(m["init"]) or {})
+                            mm = _re.fullmatch(r"\(?(\w+) \+ (\w+)\)?", rt)
+                            if mm and mm.group(2) in lens:
+                                out.add(m["var"]["n"])
+            return out
+
+        def consumed(fs, ends):
+            """the facts say `cursor == end of input`"""
+            for (txt, tr) in fs:
+                mm = _re.fullmatch(r"\((\w+) (==|!=) (\w+)\)", txt)
+                if mm and (mm.group(1) in ends or mm.group(3) in ends) and ((mm.group(2) == "==") == bool(tr)):
+                    return True
+            return False
+
+        def parses_whole_input(g):
+            """g returns success only with the fact cursor == end of input"""
+            ends = set(end_vars(g))
+            if not ends:
+                return False
+            gfg = cu.guard_facts(g)
+            rets = [(b, x) for b in g.blocks for i, ln, x in cu.block_exprs(b)
+                    if x.get("k") == "ret" and cu.success_ret(x) and not cu.ret_is_error(gfg, b["id"], x)]
+            return bool(rets) and all(consumed(gfg.get(b["id"], ()), ends) for (b, x) in rets)
         gf = cu.guard_facts(fn)
+        ends = end_vars(fn)
         for b in fn.blocks:
             for i, ln, x in cu.block_exprs(b):
                 for m in walk(x):
                     if m.get("k") == "bin" and m["op"] == "=" and cu.ftext(strip(m["l"]) or {}).replace("(", "").replace(")", "") == "*status" and \
                             (strip(m["r"]) or {}).get("k") == "int" and strip(m["r"])["v"] == 1:
                         fs = gf.get(b["id"], ())
-                        ok = any((txt == "(c != end)" and not tr) or (txt == "(c == end)" and tr) for (txt, tr) in fs)
+                        ok = consumed(fs, ends)
+                        if not ok:
+                            # the framing may live in a helper that parses the Ecdsa-Sig-Value: every path to the verdict passes a call
+                            # of a function that succeeds only on a fully consumed input, and the call's error edge does not reach it
+                            def good_call(y, fn=fn):
+                                for q in walk(y):
+                                    if q.get("k") == "call" and q.get("fn"):
+                                        tq = prog.resolve_call(fn, q["fn"])
+                                        if tq is not None and tq.blocks and tq.qname != fn.qname and parses_whole_input(tq):
+                                            return True
+                                return False
+                            esc = cu.escapes(fn, (fn.entry, None), good_call, target_expr=lambda y, x=x: y is x)
+                            if esc is None:
+                                ok = True
+                                for cb in fn.blocks:
+                                    t_ = cb.get("term")
+                                    if t_ and "c" in t_ and len(cb["succ"]) == 2 and good_call(t_["c"]):
+                                        # error edge: the one on which (call < 0) / (call != 0) holds
+                                        for k_, sc in enumerate(cb["succ"]):
+                                            ats = cu.edge_atoms(cb, k_)
+                                            if any((_re.search(r" < 0\)$", a_) and tr_) or (_re.search(r" >= 0\)$", a_) and not tr_) or
+                                                   (_re.search(r" == 0\)$", a_) and not tr_) or (_re.search(r" != 0\)$", a_) and tr_) or
+                                                   (not _re.search(r" (<|>|<=|>=|==|!=) ", a_) and tr_) for (a_, tr_) in ats) and sc.get("b") is not None:
+                                                seen_, st = set(), [sc["b"]]
+                                                while st:
+                                                    q_ = st.pop()
+                                                    if q_ in seen_:
+                                                        continue
+                                                    seen_.add(q_)
+                                                    st.extend(s2["b"] for s2 in fn.bmap[q_]["succ"] if s2.get("b") is not None)
+                                                if b["id"] in seen_:
+                                                    ok = False
                         f_ = None
                         if not ok:
                             f_ = Finding(PROP, rid, fn.name, "ECDSA signature accepted without having consumed the whole input",
@@ -984,10 +1067,21 @@ def rule_R12(res, prog):
     # (c)
     fn = fn_of("pkcs1UnpadExt")
     if fn is not None:
-        def padtest(x):
-            t = cu.ftext(x)
-            return "(in + 2)" in t and "< 8" in t
-        esc = cu.escapes(fn, (fn.entry, None), padtest,
+        import re as _re
+        inp = fn.params[0].get("n") if fn.params else "in"
+
+        def pad_edge(b, k):
+            """the edge establishes  cursor - (in + 2) >= 8  (or the same bound written as  cursor - in >= 10)"""
+            for (txt, tr) in cu.edge_atoms(b, k):
+                lb = cu.atom_lower_bound(txt, tr)
+                if lb is None:
+                    continue
+                mm = _re.fullmatch(r"\(?\(?(\w+) - \(?%s(?: \+ (\d+))?\)?\)?\)?" % _re.escape(inp), lb[0])
+                if mm and lb[1] + int(mm.group(2) or 0) >= 10:
+                    return True
+            return False
+        n_edges = sum(1 for b in fn.blocks for k in range(len(b["succ"])) if pad_edge(b, k))
+        esc = cu.escapes(fn, (fn.entry, None), lambda x: False, exempt_edge=pad_edge,
                          is_target=lambda x: x.get("k") == "ret" and (strip(x.get("e")) or {}).get("k") == "int" and strip(x["e"])["v"] == 0)
         f_ = None
         if esc is not None:
@@ -995,7 +1089,7 @@ def rule_R12(res, prog):
                          "%s:%s pkcs1UnpadExt(): the success return is reachable (via lines %s) without the test `padding length < 8`: "
                          "00 || BT || <fewer than 8 octets> || 00 || D is unpadded successfully" % (fn.relfile, esc[-1][1], [p_[1] for p_ in esc[-6:]]),
                          file=fn.relfile, line=esc[-1][1])
-        res.instance(rid, "pkcs1UnpadExt: success only behind the `padding >= 8 octets` test", esc is None, finding=f_)
+        res.instance(rid, "pkcs1UnpadExt: success only along an edge that establishes `padding >= 8 octets` (%d such edges)" % n_edges, esc is None, finding=f_)
     # (d)
     fn = fn_of("eccTestPoint")
     if fn is not None:
@@ -1111,7 +1205,9 @@ def rule_R14(res, prog):
         for b, ln, c in fn.calls():
             if c.get("fn") == "eccMulmod" and c.get("a") and "u1" in cu.ftext(strip(c["a"][1])):
                 n += 1
-                ok = any("u1" in txt and "used == 0" in txt and not tr for (txt, tr) in gf.get(b["id"], ()))
+                import re as _re
+                ok = any(("u1" in txt and "used == 0" in txt and not tr) or
+                         (_re.fullmatch(r"\(?&?\(?u1\)?\)?(->|\.)used\)?", txt) and tr) for (txt, tr) in gf.get(b["id"], ()))
                 f_ = None
                 if not ok:
                     f_ = Finding(PROP, rid, fn.name, "u1 = 0 not separated",
